@@ -665,6 +665,10 @@ func (x *fx) evalCall(e *Expr, env *specEnv) *Val {
 		case "typeis":
 			v := x.eval(args[0], env)
 			tn := args[1].String()
+			if args[1].Op == "str" {
+				// typeis(v, "*T"): pointer and other composite type names as a string
+				tn = strings.Trim(args[1].Name, "\"")
+			}
 			t := x.parseTypeString(tn, env.pkg)
 			return &Val{T: tBool, S: fmt.Sprintf("(= (i-type %s) %d)", v.S, x.g.typeID(t))}
 		}
